@@ -12,6 +12,13 @@ FOCUS = {
                                                           for d in c['files'].values() for s in d),
     'C16': lambda c: c['result']['status'] != 'ok',
 }
+def _c14_score(c):
+  """More includes first; a file reached twice (diamond / repeated include) most of all."""
+  incs = [s['file'] for d in c['files'].values() for s in d if s['t'] == 'include']
+  return len(incs) + 3 * (len(incs) - len(set(incs)))
+
+
+SCORE = {'C14': _c14_score, 'C15': lambda c: 0, 'C16': lambda c: len(c['result']['chain'])}
 CLAUSES = {
     'C14': ('applied-statements', 'returned-tree', 'status', 'entry-point-order', 'location-chain', 'provenance'),
     'C15': ('applied-statements', 'status'),
@@ -45,6 +52,13 @@ def run(prop, tier, rule):
   cases = _cases(ex)
   if len(cases) < n:
     raise tlc.TLCError('only %d cases exported' % len(cases))
+  if prop == 'C14':
+    # the include-heavy family, exhaustively: overriding bindings around nested and repeated includes
+    dx = tlc.run('GinParse_Export', 'GinParse_Export_diamond.cfg', workers=1, timeout=900)
+    rep.add_tlc('GinParse_Export_diamond(every store of the include-heavy family, printed with the specification result)', dx, exhaustive=True)
+    if dx.violation:
+      raise tlc.TLCError('design-level violation in the diamond family: %s' % dx.violation)
+    cases = _cases(dx) + cases
   focus = FOCUS[prop]
   seen = set()
   chosen = []
@@ -53,13 +67,13 @@ def run(prop, tier, rule):
     if k in seen:
       continue
     seen.add(k)
-    chosen.append((focus(c), c))
+    chosen.append((focus(c), c, SCORE[prop](c)))
   # focused cases first, then the rest, within the budget
   # focused cases first (deepest location chains first), then the rest, within the budget
-  chosen.sort(key=lambda x: (not x[0], -len(x[1]['result']['chain'])))
+  chosen.sort(key=lambda x: (not x[0], -x[2]))
   budget = 900 if tier == 'quick' else 12000
   try:
-    for i, (foc, c) in enumerate(chosen[:budget]):
+    for i, (foc, c, _) in enumerate(chosen[:budget]):
       rep.evaluations += 1
       if foc:
         rep.nontrivial_case(core.jdump([c['files'], c['skip'], c['present']]))
@@ -73,7 +87,7 @@ def run(prop, tier, rule):
       rep.behaviours_replayed += 1
   finally:
     P.teardown()
-  foc = [c for f, c in chosen if f]
+  foc = [c for f, c, _ in chosen if f]
   if foc:
     c = foc[0]
     rep.sample(dict(kind='file store + skip_unknown form exported by TLC, materialised and parsed by gin',
